@@ -15,6 +15,12 @@ if ROUND == '1':
     SRC = '/tmp/seed_%s/out'
     NAME = '%s_%d'
     LOGPREFIX = 'out/patch'
+elif ROUND == '6':
+    PAIRS = [('/tmp/seed6_batch.sh', '/tmp/seedrun6.log'), ('/tmp/seed6_batch2.sh', '/tmp/seedrun6b.log')]
+    CONF = '/tmp/confirm_seeds6.log'
+    SRC = '/tmp/seedout6_%s'
+    NAME = '%s_r6_%d'
+    LOGPREFIX = 'seedout6_'
 elif ROUND == '5':
     PAIRS = [('/tmp/seed5_batch.sh', '/tmp/seedrun5.log'), ('/tmp/seed5_batch2.sh', '/tmp/seedrun5b.log')]
     CONF = '/tmp/confirm_seeds5.log'
